@@ -56,6 +56,7 @@ structure RegEntry where
   target : Target
   fn     : Nat
   lsn    : Lsn
+  ins    : Bool      -- ghost: was the listener registered with insert=True (only the spec reads it)
 deriving Repr, DecidableEq
 
 structure St where
@@ -83,7 +84,8 @@ def ancestors (st : St) : Nat → Cls → List Cls
     | some p => p :: ancestors st fuel p
     | none => []
 
-def ancestorsOf (st : St) (k : Cls) : List Cls := ancestors st (nClasses st) k
+/-- a parent is created before its subclasses, so `k + 1` steps always reach the root -/
+def ancestorsOf (st : St) (k : Cls) : List Cls := ancestors st (k + 1) k
 
 /-- `k` is `c` or a subclass of `c` -/
 def descOrSelf (st : St) (c k : Cls) : Bool := k == c || (ancestorsOf st k).contains c
@@ -121,8 +123,9 @@ def findKey (st : St) (t : Target) (fn : Nat) : Option RegEntry :=
   st.reg.find? (fun e => e.target == t && e.fn == fn)
 
 /-- `registry._stored_in_collection`: keeps the first listener recorded for the key -/
-def storeKey (st : St) (t : Target) (fn : Nat) (l : Lsn) : St :=
-  if hasKey st t fn then st else { st with reg := st.reg ++ [{ target := t, fn := fn, lsn := l }] }
+def storeKey (st : St) (t : Target) (fn : Nat) (l : Lsn) (ins : Bool) : St :=
+  if hasKey st t fn then st
+  else { st with reg := st.reg ++ [{ target := t, fn := fn, lsn := l, ins := ins }] }
 
 /-- body of the `for cls in walk_subclasses(target)` loop of `_do_insert_or_append` -/
 def insertInto (c : Cls) (l : Lsn) (insert : Bool) (st : St) (k : Cls) : St :=
@@ -135,7 +138,7 @@ def insertInto (c : Cls) (l : Lsn) (insert : Bool) (st : St) (k : Cls) : St :=
 def listenCls (st : St) (c : Cls) (fn : Nat) (insert : Bool) (wrap : Nat) : St :=
   let (st, l) := mkListener st fn wrap
   let st := (walkSubclasses st c).foldl (insertInto c l insert) st
-  storeKey st (.cls c) fn l
+  storeKey st (.cls c) fn l insert
 
 def setColl (st : St) (i : Nat) (d : List Lsn) : St :=
   match st.insts[i]? with
@@ -154,7 +157,7 @@ def listenInst (st : St) (i : Nat) (fn : Nat) (insert : Bool) (wrap : Nat) : St 
   if hasKey st (.inst i) fn then st          -- doubles are eliminated
   else
     let d := collOf st i
-    storeKey (setColl st i (if insert then l :: d else d ++ [l])) (.inst i) fn l
+    storeKey (setColl st i (if insert then l :: d else d ++ [l])) (.inst i) fn l insert
 
 def dropKey (st : St) (t : Target) (fn : Nat) : St :=
   { st with reg := st.reg.filter (fun e => !(e.target == t && e.fn == fn)) }
